@@ -24,7 +24,7 @@ RULE = ("flag combinations sampled over -I / -O derives, -d {allow, warn, deny, 
         "--no-formatting / rustfmt x clean (schema, document) pairs incl. multi-operation documents, query file names with several "
         "dots, query paths that are symbolic links, and destinations already holding a longer stale output. The file must be at <query file stem>.rs in DIR (or beside the query) and equal the header + library tokens for the "
         "corresponding options (piped through the same rustfmt when formatting). Failure clause: invalidating edits (C06 catalogue), "
-        "missing / unparsable schema and query files, with a pre-seeded sentinel and a pre-existing output file that must survive "
+        "missing / unparsable schema and query files, -p values that are not a module path, with a pre-seeded sentinel and a pre-existing output file that must survive "
         "unchanged. Non-trivial = invocation with >= 3 flags or a failure case; distinct by (arguments, document)")
 
 HEADER = "#![allow(clippy::all, warnings)]"
@@ -190,6 +190,26 @@ def main(run):
         open(os.path.join(d, "out", "SENTINEL"), "w").write("keep me")
         jobs.append({"id": "f%d" % fi, "kind": "failure", "argv": ["generate", "--schema-path", sp, qp, "-o", os.path.join(d, "out")], "dir": d, "label": label,
                      "target": target, "pre": True, "doc_text": qt, "schema_text": st, "flags": ["failure"], "outdir": os.path.join(d, "out")})
+        fi += 1
+    # flag values the CLI cannot turn into the library option: a valid (schema, query) pair, but the command must fail
+    vdoc_text = "query Q { __typename }\n"
+    for label, extra in [("-p with a trailing `::`", ["-p", "crate::gql::scalars::"]), ("-p with a single colon", ["-p", "crate:gql::scalars"]),
+                         ("-p with dots", ["-p", "crate.gql.scalars"]), ("-p with slashes", ["-p", "src/gql/scalars"]), ("-p empty", ["-p", ""]),
+                         ("-p with blanks inside a segment", ["-p", "crate::my scalars"])]:
+        d = os.path.join(root, "f%d" % fi)
+        os.makedirs(os.path.join(d, "out"))
+        sp = os.path.join(d, "schema." + fext)
+        open(sp, "w").write(fstext)
+        qp = os.path.join(d, "bad.graphql")
+        open(qp, "w").write(vdoc_text)
+        pre = fi % 2 == 0
+        target = os.path.join(d, "out", "bad.rs")
+        if pre:
+            open(target, "w").write("// previous output\n")
+        open(os.path.join(d, "out", "SENTINEL"), "w").write("keep me")
+        jobs.append({"id": "f%d" % fi, "kind": "failure", "argv": ["generate", "--schema-path", sp, qp, "-o", os.path.join(d, "out"), "--no-formatting"] + extra, "dir": d,
+                     "label": "unusable flag value: " + label, "target": target, "pre": pre, "doc_text": vdoc_text, "schema_text": fstext, "flags": ["failure", "bad-flag-value"],
+                     "outdir": os.path.join(d, "out")})
         fi += 1
 
     def snapshot(d):
